@@ -130,6 +130,14 @@ Definition serve_tree (st : rstate) (m : option nat) (path : str) (hdrs : list (
       end
   end.
 
+(* router.go, ServeHTTP: the handler's parameter map is the captured values with the reserved parameter
+   "route" set last to leaf.Route(), the canonical text of the matched route (a bind of that name is shadowed) *)
+Definition s_route : str := [114; 111; 117; 116; 101]%N.
+Definition deliver (r : route) (ps : params) : params :=
+  (s_route, render_route r) :: filter (fun p => negb (str_eqb (fst p) s_route)) ps.
+Definition plookup (ps : params) (k : str) : option str :=
+  match find (fun p => str_eqb (fst p) k) ps with Some p => Some (snd p) | None => None end.
+
 Definition table_lookup (st : rstate) (mi : nat) (path : str) : option nat :=
   match find (fun e => Nat.eqb (fst (fst e)) mi && str_eqb (snd (fst e)) path) (table st) with
   | Some e => Some (snd e)
